@@ -694,6 +694,11 @@ class Interp:
                         unbound.append((o, "loop number %d" % o))
                     continue
                 cands = [n for n in loops if id(n) not in bound and loop_head(n) == head]
+                if not cands and " in " in head:
+                    # the loop variables were renamed: bind by what is iterated over, if that names one loop
+                    over = head.split(" in ", 1)[1]
+                    alt = [n for n in loops if id(n) not in bound and isinstance(n, ast.For) and ast.unparse(n.iter) == over]
+                    cands = alt if len(alt) == 1 else []
                 if cands:
                     bound[id(cands[0])] = (spec, o)
                 else:
@@ -1228,7 +1233,31 @@ class Interp:
             it = self.eval(ctx, env, g.iter)
             if self.is_symbolic_seq(it):
                 if g.ifs:
-                    raise Unsupported(f"UNSUPPORTED {ctx.where} filtered comprehension over symbolic sequence")
+                    # [elt for x in seq if cond(x)] over a sequence of symbolic length: the elements at the positions where the
+                    # condition holds, in order (the enumeration of a boolean mask, as for numpy's a[mask])
+                    from . import nparr
+                    from . import builtins_ as BB
+                    seq0 = self.as_seq(ctx, it)
+                    interp0 = self
+
+                    def cond_at(i, seq0=seq0, g=g, env=env, ctx=ctx):
+                        e2 = Env(env.module, parent=env, func=None)
+                        interp0.assign(ctx, e2, g.target, seq0.elem(i))
+                        f = z3.BoolVal(True)
+                        for c in g.ifs:
+                            cv = interp0.eval(ctx, e2, c)
+                            f = z3.And(f, BB.zbool(cv) if not isinstance(cv, bool) else z3.BoolVal(cv))
+                        return Sym(smt.simp(f))
+                    mask = nparr.NArr(seq0.length, cond_at, "bool", "comprehension-filter")
+                    ctx.assumed_ext.add("a filtered comprehension over a sequence keeps the elements satisfying the condition, in order")
+                    en = nparr.mask_enum(ctx, mask)
+
+                    def elem_f(j, seq0=seq0, g=g, n=n, env=env, ctx=ctx, en=en):
+                        e2 = Env(env.module, parent=env, func=None)
+                        interp0.assign(ctx, e2, g.target, seq0.elem(smt.simp(en.SEL(BB._z(j)))))
+                        return interp0.eval(ctx, e2, n.elt)
+                    res = SeqVal(en.cnt, elem_f, tag="filtered-comp")
+                    return SymList(res) if kind == "list" else res
                 seq = self.as_seq(ctx, it)
                 interp = self
 
